@@ -82,7 +82,7 @@ class Prop:
                     if pi != pmo:
                         stats["corr-mismatch"] += 1
                         rep.corr.append(("projection(%s)" % self.pid, "model and implementation disagree on the projection of %s: impl=%s model=%s" % (self.pid, str(pi)[:200], str(pmo)[:200]), block_text(did, d, [(kind, q)])))
-                    for sig, desc in self.direct(d, kind, q, pa, dict(reqs=reqs, impl=r["impl"], index=i)):
+                    for sig, desc in self.direct(d, kind, q, pa, dict(reqs=reqs, impl=r["impl"], index=i, stats=stats)):
                         stats["direct-fail"] += 1
                         rep.direct.append((sig, desc, block_text(did, d, [(kind, q)])))
                     nt = self.nontrivial(d, kind, q, pa)
@@ -106,7 +106,7 @@ def step_count(a):
 class C01(Prop):
     pid = "C01"
     module = "TrVerif.Props.C01"
-    streams = [("tmpl", 4), ("closer", 3), ("overlap", 2), ("sparse", 1), ("dense", 1), ("xfer", 1), ("parallel", 1), ("zero", 1), ("ties", 2)]
+    streams = [("tmpl", 4), ("closer", 3), ("overlap", 2), ("sparse", 1), ("dense", 1), ("xfer", 1), ("parallel", 1), ("zero", 1), ("ties", 2), ("walkboard", 1)]
     rule = ("datasets from the streams tmpl/overlap/sparse/dense/xfer/parallel/zero/ties, 4 route requests + 1 alternatives request each; "
             "a case is non-trivial when the implementation returned a route; distinct = distinct (dataset, answer)")
 
@@ -197,7 +197,7 @@ class C03(Prop):
 class C04(C03):
     pid = "C04"
     module = "TrVerif.Props.C04"
-    streams = [("sparse", 2), ("dense", 4), ("overlap", 1), ("parallel", 1), ("hours", 2), ("tmpl", 1), ("closer", 2), ("twoends", 2)]
+    streams = [("sparse", 2), ("dense", 4), ("overlap", 1), ("parallel", 1), ("hours", 2), ("tmpl", 1), ("closer", 2), ("twoends", 2), ("walkboard", 2)]
     rule = ("arrival-time route requests on datasets with positive hop times and no `transferable` line; dense stream gives competing "
             "departures within one minimum-waiting window; non-trivial = journey exists; distinct (dataset, request)")
 
@@ -227,7 +227,7 @@ class C04(C03):
 class C05(C03):
     pid = "C05"
     module = "TrVerif.Props.C05"
-    streams = [("sparse", 2), ("dense", 4), ("overlap", 1), ("parallel", 1), ("hours", 2), ("tmpl", 1), ("closer", 2), ("twoends", 2)]
+    streams = [("sparse", 2), ("dense", 4), ("overlap", 1), ("parallel", 1), ("hours", 2), ("tmpl", 1), ("closer", 2), ("twoends", 2), ("walkboard", 2)]
     rule = ("departure-time requests (cap disabled) on the C03+C04 domain; the reported departure is compared with the latest departure "
             ">= requested that still meets the reported arrival; non-trivial = success; distinct (dataset, request)")
 
@@ -263,10 +263,28 @@ class C06(Prop):
         rs.append(("route", gen.gen_query(rng, d, alt=True)))
         return rs
 
+    def plan_case(self, rng, did):
+        """a third of the cases is moved so that one of its requests is made a few minutes before 24:00:00 - the itinerary then
+        straddles midnight (service days run to 32 h); clock times reported modulo 24 h keep every identity on either side of midnight
+        and break them only across it (seeded change C06-r5)"""
+        c = Prop.plan_case(self, rng, did)
+        if rng.random() < 0.35:
+            _, d, reqs = c["blocks"][0]
+            ts = [int(q["time_of_trip"]) for k, q in reqs if "time_of_trip" in q]
+            allt = [x for tr in d["trips"] for x in tr[3] + tr[4]]
+            if ts and allt:
+                delta = 86400 - rng.choice(ts) - rng.choice([60, 300, 600, 900, 1500, 2400])
+                if min(allt + ts) + delta >= 0 and max(allt + ts) + delta <= gen.MAXC:
+                    d2 = shift_dataset(d, delta); d2["profile"] = d.get("profile", "")
+                    reqs2 = [(k, dict(q, time_of_trip=int(q["time_of_trip"]) + delta) if "time_of_trip" in q else q) for k, q in reqs]
+                    c["blocks"] = [(did, d2, reqs2)]
+        return c
+
     def direct(self, d, kind, q, a, ctx):
         out = []
         n = O.norm(q)
         for r in _routes(a):
+            if r.get("departureTime", 0) < 86400 <= r.get("arrivalTime", 0): ctx["stats"]["routes across 24:00"] += 1
             errs = O.check_totals(d, n, r)
             if errs:
                 out.append(("totals", "totals identities broken: " + "; ".join(errs[:3])))
@@ -392,7 +410,7 @@ class C08(Prop):
 class C09(C08):
     pid = "C09"
     module = "TrVerif.Props.C09"
-    streams = [("sparse", 2), ("dense", 3), ("overlap", 1), ("parallel", 1), ("hours", 2), ("tmpl", 1), ("closer", 2), ("twoends", 2)]
+    streams = [("sparse", 2), ("dense", 3), ("overlap", 1), ("parallel", 1), ("hours", 2), ("tmpl", 1), ("closer", 2), ("twoends", 2), ("walkboard", 2)]
     rule = ("arrival-time accessibility requests on datasets with positive hop times and uniform minimum waiting; "
             "non-trivial = at least one stop listed; distinct (dataset, request)")
     forward = False
